@@ -32,8 +32,8 @@ PARKED = ('nn', 'nd', 'dn')
 
 # MacStatus.NOT_STARTED / PROCESSING_AUTH_DATA / PROCESSING_PLAINTEXT are 0 / 1 / 2
 
-S = '(self._mac.g_fed + self._cache)'
-OS = '(old(self._mac.g_fed) + old(self._cache))'
+S = 'spec.aead2.cat(self._mac.g_fed, self._cache)'
+OS = 'spec.aead2.cat(old(self._mac.g_fed), old(self._cache))'
 B0 = 'spec.aead2.ccm_b0(self.nonce, self._mac_len, self._assoc_len, self._msg_len)'
 HDR = 'spec.aead2.ccm_hdr(self._assoc_len)'
 AST = 'spec.aead2.ccm_a_start(self._assoc_len)'
@@ -109,7 +109,7 @@ INV = {('inv%02d' % i): cl for i, cl in enumerate(VALID)}        # valid(self) a
 
 # spec functions that stay uninterpreted outside the functions that establish / consume their definitions
 FMT = ['spec.aead2.ccm_b0', 'spec.aead2.ccm_hdr']
-OPQ = FMT + ['spec.aead2.ccm_tag', 'spec.aead2.ccm_s0', 'spec.aead2.ccm_ctr0']
+OPQ = FMT + ['spec.aead2.ccm_tag', 'spec.aead2.ccm_s0', 'spec.aead2.ccm_ctr0', 'spec.aead2.cat']
 
 
 def ccm_class(nxt='all', cfg='s1', shape=1):
@@ -160,7 +160,8 @@ def registry(nxt='all', cfg='s1', shape=1, upd='run', data='bytes'):
     # ------------------------------------------------------------------------------------------------ _pad_cache_and_update
     # A.2.2/A.2.3: the least number of zero bytes (possibly none) that completes the block
     reg.add(Contract(C + '._pad_cache_and_update', params={}, requires=RUN_PRE, raises={},
-                     ensures=dict(RUN_POST, stream='%s == %s + spec.aead2.zpad(len(%s))' % (S, OS, OS), flushed='self._cache == b""'),
+                     ensures=dict(RUN_POST, stream='%s == %s + spec.aead2.zpad(len(%s))' % (S, OS, OS), flushed='self._cache == b""',
+                                  fed_is_stream='self._mac.g_fed == %s' % S),
                      lemmas={'exit': {'len': 'len(self._mac.g_fed) + len(self._cache) == len(old(self._mac.g_fed)) + len(old(self._cache)) + (0 - len(old(self._cache))) % 16',
                                       'aligned': 'len(self._cache) % 16 == 0'}},
                      modifies=RUN_MOD, options={'assume_valid': False}))
@@ -257,7 +258,7 @@ def registry(nxt='all', cfg='s1', shape=1, upd='run', data='bytes'):
     reg.add(Contract(C + '._digest', params={}, requires=['valid(self)'],
                      raises={'ValueError': ('iff', refuse)},
                      ensures=dict(post, result='result == self._mac_tag'),
-                     modifies=DIG_MOD, opaque=FMT + ['spec.aead2.ccm_s0', 'spec.aead2.ccm_ctr0']))
+                     modifies=DIG_MOD, opaque=FMT + ['spec.aead2.ccm_s0', 'spec.aead2.ccm_ctr0', 'spec.aead2.cat']))
     reg.add(Contract(C + '.digest', params={},
                      raises={'TypeError': ('iff', '"digest" not in self._next'), 'ValueError': ('iff', '"digest" in self._next and ' + refuse)},
                      unchanged_on_raise=['TypeError'],
